@@ -251,6 +251,42 @@ pub fn run_c16(tier: &str, seed: u64) -> campaign::CampaignResult {
         .collect();
     let mut violations = 0;
     let mut shapes: BTreeSet<String> = BTreeSet::new();
+    // static part on modules derived from the full surface grammar (member relations, morphism rules)
+    let ng = std::env::var("EQV_NGRAM").ok().and_then(|v| v.parse().ok()).unwrap_or(np / 5);
+    let gram_sources: Vec<String> = crate::pt::draw_tapes(seed ^ 0x6716, ng, 500).into_iter().map(|tape| crate::gram::gen_module(&tape, 0)).collect();
+    let gram_results: Vec<(Result<bool, String>, C16Stats)> = gram_sources
+        .par_iter()
+        .map(|src| {
+            let mut st = C16Stats::default();
+            let r = c16_one(src, &mut st);
+            (r, st)
+        })
+        .collect();
+    for (src, (res, st)) in gram_sources.iter().zip(gram_results.iter()) {
+        ev.evaluations += 1;
+        ev.count("grammar_modules", 1);
+        ev.count("families", st.families as u64);
+        ev.count("families_with_two_or_more_atoms", st.families_n2 as u64);
+        ev.count("subrules", st.subrules as u64);
+        ev.count("labellings_checked", st.labellings as u64);
+        shapes.extend(st.shapes.iter().cloned());
+        match res {
+            Ok(true) => ev.count("grammar_modules_accepted", 1),
+            Ok(false) => ev.count("grammar_modules_rejected", 1),
+            Err(msg) => {
+                let rep = ProgReplay { kind: "c16".into(), property: "C16".into(), program: None, source: src.clone(), message: msg.clone(), detail: json!({"generator": "grammar"}), seed };
+                let sig = format!("C16:{}", rep.message.chars().map(|c| if c.is_ascii_digit() { '#' } else { c }).take(90).collect::<String>());
+                if let Some(k) = known.known("C16", &sig) {
+                    println!("KNOWN-FINDING: property=C16 {}", k.what);
+                    continue;
+                }
+                let path = evidence::write_replay("C16", "gram", &serde_json::to_value(&rep).unwrap());
+                eprintln!("violation of C16 (grammar module): {}", rep.message);
+                evidence::print_violation("C16", &path);
+                violations += 1;
+            }
+        }
+    }
     for (pc, (res, st)) in programs.iter().zip(results.iter()) {
         ev.evaluations += 1;
         ev.count("families", st.families as u64);
